@@ -55,6 +55,10 @@ type Native struct {
 	V    interface{}
 }
 
+// SymBytes is []byte(s) for a string whose byte length is not known (decimal
+// atoms): it can only be converted back to a string.
+type SymBytes struct{ S Value }
+
 type mapEntry struct{ K, V Value }
 
 // Map keeps insertion order; entries slices are copy-on-write so that undo is a
